@@ -39,6 +39,9 @@ structure Forest where
   nextGid : Nat
   /-- model `lyd_change_node_value` as the C does it (F19) or with the corrected call order -/
   fixedChange : Bool
+  /-- next identity the harness hands to a node it did not name itself (key leaves of `lyd_new_list2`, nodes created along
+      a `lyd_new_path`): `register_new` numbers them from 2000 in document order -/
+  nextAuto : Nat := 2000
   deriving Inhabited
 
 /-! ## schema descriptor -/
@@ -166,6 +169,11 @@ def storeVal (kt : String) (b : Bytes) : Option (Bytes × Key) :=
     | none => none
   | _ => some (b, .str b)
 
+def atomOf : Key → Atom
+  | .int i => .int i
+  | .str b => .str b
+  | .tup _ => .str []
+
 /-! ## the model node of a data node -/
 
 def Forest.nodeOf (f : Forest) (i : NInfo) (key : Key) : Node :=
@@ -209,12 +217,12 @@ def Forest.verdict (f : Forest) : Nat :=
 /-! ## API operations -/
 
 inductive Rc where
-  | success | einval | evalid | enotfound | enot | eint
+  | success | einval | evalid | enotfound | enot | eint | eexist
   deriving DecidableEq, Repr
 
 def Rc.name : Rc → String
   | .success => "SUCCESS" | .einval => "EINVAL" | .evalid => "EVALID" | .enotfound => "ENOTFOUND"
-  | .enot => "ENOT" | .eint => "EINT"
+  | .enot => "ENOT" | .eint => "EINT" | .eexist => "EEXIST"
 
 /-- result of an op: harness-level refusal, or libyang return code + new state -/
 inductive Res where
@@ -444,8 +452,14 @@ def opChange (f : Forest) (id : Nat) (v : Bytes) : Res :=
           | .kids p =>
             match f1.info p with
             | some pi =>
-              let f2 := f1.setInfo { pi with value := canon }
-              let (f3, ok) := f2.rekey pi key
+              -- a list with several keys: the changed key's position in the tuple
+              let kes := f.ents.filter (fun k => k.parent == pi.sid && k.kind == "key")
+              let idx := (kes.takeWhile (·.sid != e.sid)).length
+              let newKey : Key := match (f1.findNode p).map (fun (m : Node) => m.key) with
+                | some (Key.tup as) => Key.tup (as.set idx (atomOf key))
+                | _ => key
+              let f2 := if idx == 0 then f1.setInfo { pi with value := canon } else f1
+              let (f3, ok) := f2.rekey pi newKey
               .done (if ok then .success else .eint) f3
             | none => .done .success f1
           | .top _ => .done .success f1
